@@ -17,6 +17,11 @@ TRUSTED = ['Lattice.get_all_distances compared with exact rational minimum-image
 ASSUMPTIONS = []
 
 
+def pre_build():
+    import translate
+    return [translate.gen_collective_scan()]
+
+
 def gen_cases(rng, tier):
     n = {'quick': 400, 'thorough': 8000, 'search': 300}[tier]
     cases = []
